@@ -15,3 +15,6 @@ def check(rep, tier):
     rep.run(value_transparency.run, rep, tier)
     rep.run(value_transparency.run_ops, rep, tier)
     rep.run(value_transparency.run_plain, rep, tier)
+    from contracts import diffops
+    rep.run(diffops.run_ops, rep, tier)      # the operators hand values / aux outputs back as the plain objects the function computed
+    rep.run(value_transparency.run_outputs, rep, tier)
